@@ -214,6 +214,20 @@ def val_requests(rng, n):
     return out
 
 
+def conforming(req, model_answer):
+    """did every answer the model consumed respect the n it asked for?"""
+    t = req.split()
+    st = t[4] if t[0] == "tr.val" else t[2]
+    ks = [] if st == "-" else [int(x) for x in st.split(",")]
+    nst = model_answer.split(" | ")[-1]
+    ns_ = []
+    if nst != "-":
+        for seg in nst.split(","):
+            n, _, c = seg.partition("x")
+            ns_ += [int(n)] * (int(c) if c else 1)
+    return all(k < n for k, n in zip(ks, ns_))
+
+
 def correspond(run, corr):
     rng = run.rng
     scs, sreqs, sans = sel_answers(run)
@@ -229,7 +243,11 @@ def correspond(run, corr):
     reqs = list(dict.fromkeys(reqs))
     a = impl(reqs)
     b = vf.run_driver(reqs)
-    corr.compare(reqs, a, b)
+    # the theorems quantify over streams that respect the ranges asked for: a request is inside the domain iff every answer the
+    # MODEL consumed was below the n the model asked for (dry streams included); what the code does with other answers (an
+    # exception raised earlier or later, ...) is compared and recorded, but a difference there is not a broken tie
+    inside = {r: conforming(r, y) for r, y in zip(reqs, b)}
+    corr.compare(reqs, a, b, in_domain=lambda r: inside[r])
     for r, x in zip(reqs, a):
         t = r.split()
         corr.count(r, "rand: %s %s -> %s" % (t[0], t[1] if t[0] == "tr.val" else ("v%s" % t[3] if t[3] in ("0", "1") else "v-other"),
@@ -241,8 +259,11 @@ def correspond(run, corr):
                   "(every header draw at 0, n-1, n//2; every modulation index x TSC set end x TSC; fills all-low, all-high, alternating, seeded), "
                   "their truncations, out-of-range and surplus answers; call sequences H,B / B,H / repeated / explicit lengths on prior states of every "
                   "modulation / None / NOPE / dirty fields / unknown versions; rand_pwr/rssi/toa256 on the min/max lattice")
-    for i in (0, len(reqs) // 2, len(reqs) - 1):
-        corr.samples.append({"request": reqs[i][:200], "impl": a[i][:200], "model": b[i][:200]})
+    pick = [i for i, r in enumerate(reqs) if r.startswith("tr.rx H,B ") and " 1 - - - - " in r and a[i].startswith("ok")][:1] + \
+           [i for i, r in enumerate(reqs) if r.startswith("tr.val rssi")][5:6]
+    corr.samples[:0] = [{"request": reqs[i][:200], "impl": a[i][:200], "model": b[i][:200]} for i in pick]
+    corr.distribution["rand: requests compared on streams that respect the ranges asked for"] = sum(inside.values())
+    corr.distribution["rand: requests compared on other streams (evidence only)"] = len(reqs) - sum(inside.values())
 
 
 # ------------------------------------------------------------------------------------------------ oracle
